@@ -37,6 +37,7 @@ pub struct ZarrAsyncTraceStorage {
     draw_types: Vec<(String, ItemType)>,
     event_dim_of_stat: HashMap<String, String>,
     rt_handle: tokio::runtime::Handle,
+    store_warmup: bool,
 }
 
 /// Per-chain storage for async Zarr MCMC traces
@@ -51,6 +52,7 @@ pub struct ZarrAsyncChainStorage {
     pending_writes: Arc<tokio::sync::Mutex<JoinSet<Result<()>>>>,
     rt_handle: tokio::runtime::Handle,
     max_queued_writes: usize,
+    store_warmup: bool,
 }
 
 /// Write a chunk of data to a Zarr array asynchronously
@@ -276,6 +278,7 @@ impl ZarrAsyncChainStorage {
         chain: u64,
         rt_handle: tokio::runtime::Handle,
         event_dim_of_stat: HashMap<String, String>,
+        store_warmup: bool,
     ) -> Self {
         let draw_buffers: HashMap<String, SampleBuffer> = draw_types
             .iter()
@@ -302,6 +305,7 @@ impl ZarrAsyncChainStorage {
             // that we queue one write per draw.
             max_queued_writes: num_arrays.max(1),
             rt_handle,
+            store_warmup,
         }
     }
 
@@ -409,6 +413,9 @@ impl ChainStorage for ZarrAsyncChainStorage {
         draws: Vec<(&str, Option<Value>)>,
         info: &Progress,
     ) -> Result<()> {
+        if !self.store_warmup && info.tuning {
+            return Ok(());
+        }
         let is_first_draw = self.last_sample_was_warmup && !info.tuning;
         if is_first_draw {
             {
@@ -679,9 +686,15 @@ impl StorageConfig for ZarrAsyncConfig {
     fn new_trace<M: Math>(self, settings: &impl Settings, math: &M) -> Result<Self::Storage> {
         let handle = self.rt_handle.clone();
         let rt_handle = handle.clone();
+        let store_warmup = self.store_warmup;
         handle.block_on(async move {
             let n_chains = settings.num_chains() as u64;
-            let n_tune = settings.hint_num_tune() as u64;
+            // Without `store_warmup` the warmup arrays stay empty.
+            let n_tune = if store_warmup {
+                settings.hint_num_tune() as u64
+            } else {
+                0
+            };
             let n_draws = settings.hint_num_draws() as u64;
 
             let param_types = settings.stat_types(math);
@@ -879,6 +892,7 @@ impl StorageConfig for ZarrAsyncConfig {
                 draw_chunk_size,
                 event_dim_of_stat,
                 rt_handle,
+                store_warmup,
             })
         })
     }
@@ -898,6 +912,7 @@ impl TraceStorage for ZarrAsyncTraceStorage {
             chain_id as _,
             self.rt_handle.clone(),
             self.event_dim_of_stat.clone(),
+            self.store_warmup,
         ))
     }
 
